@@ -26,9 +26,10 @@ def rule_shell_product(rep, repo):
         raise AnalysisError("anchor vanished: AtomGrid._generate_atomic_grid")
     here = f.loc()
     sizes = {3: 2, 5: 3, 7: 2}
-    degs = [3, 5, 7]
     n = 0
-    for rotate in (0, 4):
+    # shells of three different degrees, and two consecutive shells of the same degree (whatever is reused between
+    # shells of equal degree must not carry the rotation of the previous shell)
+    for degs, rotate in (([3, 5, 7], 0), ([3, 5, 7], 4), ([3, 3, 5], 4)):
         r = [sp.Symbol(f"r{i}", positive=True) for i in range(3)]
         w = [sp.Symbol(f"w{i}", positive=True) for i in range(3)]
         made = []
@@ -51,8 +52,10 @@ def rule_shell_product(rep, repo):
             seed = int(random_state)
             M = e10._obj_array([[sp.Symbol(f"M{seed}_{a}{b}") for b in range(3)] for a in range(3)])
             return e10.Obj(f"rotation{seed}", as_matrix=lambda: M)
-        ext = {"AngularGrid": e10.Cls("AngularGrid", angular), "R": e10.Obj("Rotation", random=random)}
+        klass = e10.Obj("AtomGrid-class", cls="AtomGrid")
+        ext = {"AngularGrid": e10.Cls("AngularGrid", angular), "R": e10.Obj("Rotation", random=random), "AtomGrid": klass}
         it = e10.Interp({}, ext)
+        klass.resolver = e10.class_resolver(repo, "AtomGrid", klass, it)      # static helpers reached through the class name
         try:
             out = it.call_def(f.node, [rgrid, list(degs)], {"rotate": rotate, "method": "lebedev"}, {})
         except e10.Undecided as e:
@@ -62,18 +65,20 @@ def rule_shell_product(rep, repo):
         if not isinstance(out, (tuple, list)) or len(out) != 4:
             raise AnalysisError("AtomGrid._generate_atomic_grid does not return (points, weights, indices, degrees)")
         pts, wts, idx, used = out
-        cfg = f"rotate = {rotate}"
-        want_idx = [0, 2, 5, 7]
+        cfg = f"degrees {degs}, rotate = {rotate}"
+        want_idx = [0]
+        for d_ in degs:
+            want_idx.append(want_idx[-1] + sizes[d_])
         if [int(x) for x in list(idx)] != want_idx:
             rep.violation("R8.radial-times-shell", "atomgrid.AtomGrid._generate_atomic_grid", "indices",
-                          f"{cfg}: the shell index table is {[int(x) for x in list(idx)]} for shells of 2, 3 and 2 points", here)
+                          f"{cfg}: the shell index table is {[int(x) for x in list(idx)]}, expected {want_idx}", here)
             continue
         if [int(x) for x in list(used)] != degs:
             rep.violation("R8.radial-times-shell", "atomgrid.AtomGrid._generate_atomic_grid", "degrees",
                           f"{cfg}: the degrees reported as used are {list(used)}, the angular grids have {degs}", here)
-        if getattr(pts, "shape", None) != (7, 3) or getattr(wts, "shape", None) != (7,):
+        if getattr(pts, "shape", None) != (want_idx[-1], 3) or getattr(wts, "shape", None) != (want_idx[-1],):
             rep.violation("R8.radial-times-shell", "atomgrid.AtomGrid._generate_atomic_grid", "shape",
-                          f"{cfg}: points {getattr(pts, 'shape', None)}, weights {getattr(wts, 'shape', None)} for 7 grid points", here)
+                          f"{cfg}: points {getattr(pts, 'shape', None)}, weights {getattr(wts, 'shape', None)} for {want_idx[-1]} grid points", here)
             continue
         bad = False
         for i, d in enumerate(degs):
@@ -99,4 +104,71 @@ def rule_shell_product(rep, repo):
                 break
         if not bad:
             rep.ok("R8.radial-times-shell", f"AtomGrid._generate_atomic_grid[{cfg}]", here, "points r_i Omega_k (rotated), weights omega_k w_i r_i^2")
-    rep.floor("R8 grid points", n, 14)
+    rep.floor("R8 grid points", n, 21)
+
+
+def rule_shell_grid(rep, repo):
+    """R9: get_shell_grid(i) is the same shell: r_i (Omega M_(rotate+i)), weights omega w_i (r_i^2 when r_sq)."""
+    import sympy as sp
+    from gridlint import e10
+    f = repo.resolve_method("AtomGrid", "get_shell_grid")
+    if f is None:
+        raise AnalysisError("anchor vanished: AtomGrid.get_shell_grid")
+    here = f.loc()
+    sizes = {3: 2, 5: 3}
+    degs = [3, 3, 5]
+    n = 0
+    for rotate in (0, 4):
+        for index in (1, 2):
+            for r_sq in (True, False):
+                r = [sp.Symbol(f"r{i}", positive=True) for i in range(3)]
+                w = [sp.Symbol(f"w{i}", positive=True) for i in range(3)]
+
+                def angular(degree=None, size=None, method="lebedev", **kw):
+                    d = int(degree)
+                    pts = e10._obj_array([[sp.Symbol(f"O{d}_{j}{c}") for c in range(3)] for j in range(sizes[d])])
+                    wts = e10.arr([sp.Symbol(f"om{d}_{j}") for j in range(sizes[d])])
+                    return e10.Obj("angular", cls="AngularGrid", points=pts, weights=wts, degree=d, size=sizes[d], method=method)
+
+                def getitem(i):
+                    i = int(i)
+                    return e10.Obj(f"rgrid[{i}]", cls="OneDGrid", points=e10.arr([r[i]]), weights=e10.arr([w[i]]), size=1)
+                rgrid = e10.Obj("rgrid", cls="OneDGrid", size=3, points=e10.arr(r), weights=e10.arr(w), __getitem__=getitem)
+
+                def random(random_state=None, **kw):
+                    seed = int(random_state)
+                    M = e10._obj_array([[sp.Symbol(f"M{seed}_{a}{b}") for b in range(3)] for a in range(3)])
+                    return e10.Obj(f"rotation{seed}", as_matrix=lambda: M)
+                obj = e10.Obj("atomgrid", cls="AtomGrid", degrees=list(degs), _degs=list(degs), method="lebedev", _method="lebedev",
+                              rotate=rotate, _rot=rotate, rgrid=rgrid, _rgrid=rgrid)
+                klass = e10.Obj("AtomGrid-class", cls="AtomGrid")
+                it = e10.Interp({}, {"AngularGrid": e10.Cls("AngularGrid", angular), "R": e10.Obj("Rotation", random=random),
+                                     "AtomGrid": klass})
+                obj.resolver = e10.class_resolver(repo, "AtomGrid", obj, it)
+                klass.resolver = e10.class_resolver(repo, "AtomGrid", klass, it)
+                try:
+                    g = it.call_def(f.node, [obj, index], {"r_sq": r_sq}, {})
+                except e10.Undecided as e:
+                    raise AnalysisError(f"AtomGrid.get_shell_grid is outside the fragment the symbolic array evaluator knows: {e}") from e
+                except (IndexError, ValueError, TypeError, KeyError, AttributeError) as e:
+                    raise AnalysisError(f"AtomGrid.get_shell_grid: the evaluation over symbolic arrays failed ({type(e).__name__}: {e})") from e
+                cfg = f"shell {index} of degrees {degs}, rotate = {rotate}, r_sq = {r_sq}"
+                pts = g.attrs.get("points") if isinstance(g, e10.Obj) else None
+                wts = g.attrs.get("weights") if isinstance(g, e10.Obj) else None
+                d = degs[index]
+                n += 1
+                good = getattr(pts, "shape", None) == (sizes[d], 3) and getattr(wts, "shape", None) == (sizes[d],)
+                for k in range(sizes[d]) if good else ():
+                    omega = [sp.Symbol(f"O{d}_{k}{c}") for c in range(3)]
+                    if rotate:
+                        omega = [sum(omega[a] * sp.Symbol(f"M{rotate + index}_{a}{c}") for a in range(3)) for c in range(3)]
+                    good = good and all(sp.expand(pts[k, c] - r[index] * omega[c]) == 0 for c in range(3))
+                    good = good and sp.expand(wts[k] - sp.Symbol(f"om{d}_{k}") * w[index] * (r[index] ** 2 if r_sq else 1)) == 0
+                if good:
+                    rep.ok("R9.shell-grid-evaluated", f"AtomGrid.get_shell_grid[{cfg}]", here, "the same shell as the stored one")
+                else:
+                    rep.violation("R9.shell-grid-evaluated", "atomgrid.AtomGrid.get_shell_grid", "shell",
+                                  f"{cfg}: the returned grid is not radius x (rotated) angular points with weights angular x radial"
+                                  f"{' x r^2' if r_sq else ''} of that shell (rotation seed rotate + shell index)", here)
+                    return
+    rep.floor("R9 configurations", n, 8)
